@@ -248,4 +248,18 @@ CHECKS = {
         "note": "Candidate names: the 24 Rust keywords Incan does not reserve, runtime/prelude/helper names, generated temporaries, case "
                 "variants; module file names not yet renamed. Keyword declarations and a crate-shadowing type name are catalogued defects.",
     },
+    "C20": {
+        "level": "translation_validation",
+        "technique": "TLA+ spec Derive (structural Eq, lexicographic Ord, Hash classes, Clone machine, JSON tree mapping; TLC checks the "
+                     "laws on every declaration's value set and prints trees and ==/< matrices); compiled programs print JSON, round "
+                     "trips, all pairwise comparisons, set sizes; compared with the spec",
+        "text": "Derive.tla defines what the derives mean; TLC verifies round trip, exact field names/order, Eq structural, Ord a strict "
+                "total order consistent with Eq, hash consistency and clone independence on the model, and emits per declaration the "
+                "values with their JSON trees and complete comparison matrices. One compiled Incan program per declaration and part "
+                "prints json_stringify, from_json round trips, every pairwise == and <, and set sizes; the JSON text is parsed keeping "
+                "key order and compared as a tree, every boolean with the matrix.",
+        "note": "Six declarations (scalars, bools, Option/List, nested model, float, Dict) with small value sets (non-ASCII, quotes, "
+                "backslashes, empty strings/collections, negatives); Eq/Ord/Hash not derived for float fields; `.clone()` and dict-literal "
+                "fields are catalogued defects.",
+    },
 }
